@@ -86,9 +86,13 @@ pub fn install_panic_hook() {
 }
 
 fn strip_digits(s: &str) -> String {
+    // stable part of a panic message: up to the first value-bearing punctuation, digits removed
     let mut out = String::new();
     let mut last_hash = false;
-    for c in s.chars() {
+    for (i, c) in s.chars().enumerate() {
+        if i >= 12 && matches!(c, ':' | '{' | '(' | '"' | '\'' | '`' | '[') {
+            break;
+        }
         if c.is_ascii_digit() {
             if !last_hash {
                 out.push('#');
@@ -99,7 +103,7 @@ fn strip_digits(s: &str) -> String {
             last_hash = false;
         }
     }
-    out.chars().take(80).collect()
+    out.trim().chars().take(60).collect()
 }
 
 fn short_path(p: &str) -> String {
@@ -856,6 +860,7 @@ pub fn check_main(check: &'static dyn Check, tier: Tier) -> i32 {
     }
     let mut new_violation_lines = Vec::new();
     let mut reported = 0;
+    let mut unreported = 0u64;
     let replay_dir = format!("{}/replays", root);
     for (sig, v) in &by_sig {
         if known_sigs.contains(sig) {
@@ -871,11 +876,14 @@ pub fn check_main(check: &'static dyn Check, tier: Tier) -> i32 {
             continue;
         }
         if reported >= 8 {
-            new_violation_lines.push(format!(
-                "VIOLATION property={} replay=none (further signature {} not minimised)",
-                check.id(),
-                sig
-            ));
+            unreported += 1;
+            if unreported <= 4 {
+                new_violation_lines.push(format!(
+                    "VIOLATION property={} replay=none (further signature {} not minimised)",
+                    check.id(),
+                    sig
+                ));
+            }
             continue;
         }
         reported += 1;
@@ -1013,6 +1021,9 @@ pub fn check_main(check: &'static dyn Check, tier: Tier) -> i32 {
 
     for l in &known_lines {
         println!("{}", l);
+    }
+    if unreported > 4 {
+        println!("({} further distinct violation signatures not listed)", unreported - 4);
     }
     println!(
         "{}: runs={} evaluations={} nontrivial={} distinct={} sim_s={} violations_raw={} wall={:.1}s",
